@@ -363,6 +363,44 @@ func eachCase(c *fw.Ctx, which map[string]bool, f func(sc streamCase)) {
 		}
 		rec(0)
 	}
+	// zero bytes: the scanner's end-of-input sentinel is the zero byte, and parts of a file are
+	// skipped by length (schema and enum bodies as the schema library delimits them). One document
+	// with 17 places where a byte can stand; a zero byte at every subset of 1..3 places.
+	if on("nul-places") {
+		parts := []string{"JSIGHT 0.3\nINFO\n  Title \"T", "\"\n  Description\n    text ", "\n    more ", "\nTYPE @a // ann ", "\n  {\n    \"k\": 1 // note ", "\n  } # c ", "\n# line ", "\nENUM @e\n  [\n    1 // in ", "\n  ]\nGET /p", " // a ", "\n  Description\n  (\n    par ", "\n  )\n  200 any\n### block ", " ###\nTYPE @r regex\n  /x", "/\nURL /u # eol ", "\n  POST\n    Description\n      late ", "\n      text ", "\n    200 any\nGET /z\n  200 any\n  Description\n    last ", "\n"}
+		if base := drv.RunMem("root.jst", strings.Join(parts, ""), fixed); !base.OK() && c.Shard == 0 {
+			c.Note("harness_fault", "nul-places: the document without zero bytes is not accepted: "+base.Short())
+			c.NotExhaustive("nul-places base document rejected")
+		}
+		n := len(parts) - 1
+		maxK := 3
+		var pick []int
+		var rec func(from int)
+		rec = func(from int) {
+			if len(pick) > 0 {
+				var b strings.Builder
+				for i, p := range parts {
+					b.WriteString(p)
+					for _, k := range pick {
+						if k == i {
+							b.WriteByte(0)
+						}
+					}
+				}
+				single("nul-places", fmt.Sprint(pick), b.String())
+				single("nul-places", fmt.Sprint(pick)+" crlf", strings.ReplaceAll(b.String(), "\n", "\r\n"))
+			}
+			if len(pick) == maxK {
+				return
+			}
+			for i := from; i < n; i++ {
+				pick = append(pick, i)
+				rec(i + 1)
+				pick = pick[:len(pick)-1]
+			}
+		}
+		rec(0)
+	}
 	// paste graphs
 	if on("paste") {
 		maxN := 3
